@@ -863,6 +863,19 @@ func (s *Session) closeSession() error {
 	return intstream.Close(s.Conn(), &s.out.Info)
 }
 
+// outputClosed returns ErrOutputStreamClosed if the output stream has been
+// closed.
+// It must be called with the output stream locked so that the stream cannot be
+// closed between the check and the write that follows it.
+func (s *Session) outputClosed() error {
+	s.stateMutex.RLock()
+	defer s.stateMutex.RUnlock()
+	if s.state&OutputStreamClosed == OutputStreamClosed {
+		return ErrOutputStreamClosed
+	}
+	return nil
+}
+
 // State returns the current state of the session. For more information, see the
 // SessionState type.
 func (s *Session) State() SessionState {
@@ -913,6 +926,9 @@ func (s *Session) SetCloseDeadline(t time.Time) error {
 func (s *Session) Encode(ctx context.Context, v interface{}) error {
 	s.out.Lock()
 	defer s.out.Unlock()
+	if err := s.outputClosed(); err != nil {
+		return err
+	}
 
 	defer setWriteDeadline(ctx, s.conn)()
 	return marshal.EncodeXML(s.out.e, v)
@@ -925,6 +941,9 @@ func (s *Session) Encode(ctx context.Context, v interface{}) error {
 func (s *Session) EncodeElement(ctx context.Context, v interface{}, start xml.StartElement) error {
 	s.out.Lock()
 	defer s.out.Unlock()
+	if err := s.outputClosed(); err != nil {
+		return err
+	}
 
 	defer setWriteDeadline(ctx, s.conn)()
 	return marshal.EncodeXMLElement(s.out.e, v, start)
@@ -948,6 +967,9 @@ func (s *Session) SendElement(ctx context.Context, r xml.TokenReader, start xml.
 func send(ctx context.Context, s *Session, r xml.TokenReader, start *xml.StartElement) error {
 	s.out.Lock()
 	defer s.out.Unlock()
+	if err := s.outputClosed(); err != nil {
+		return err
+	}
 
 	defer setWriteDeadline(ctx, s.conn)()
 
